@@ -32,14 +32,18 @@ fn run_case(rep: &mut Report, args: &Args, cs: u64, sink_kind: &str) {
     let threads = *rng.pick(&[2usize, 3, 4, 8, 16, 32]);
     let cap = *rng.pick(&[16usize, 24, 64, 512, 1432]);
     let per_thread = (rng.range(2000, 12000) as usize / threads).max(40);
-    let flushers = rng.below(3) as usize; // how many threads also call flush at random
+    // how many threads also call flush at random (a quarter of the cases: every thread, and often - a flush then
+    // regularly overlaps another thread's emit)
+    let flush_heavy = rng.chance(1, 4);
+    let flushers = if flush_heavy { threads } else { rng.below(3) as usize };
+    let flush_one_in = if flush_heavy { 6 } else { 50 };
     let default_cap = cap == 512 && rng.chance(1, 2);
     rep.eval();
     // ---- build the sink ----
     enum Obs {
         Spy(crossbeam_channel::Receiver<Vec<u8>>),
         QueueSpy(crossbeam_channel::Receiver<Vec<u8>>),
-        Unix { rx_thread: std::thread::JoinHandle<Vec<Vec<u8>>>, stop: Arc<std::sync::atomic::AtomicBool>, dir: std::path::PathBuf },
+        Unix { rx_thread: std::thread::JoinHandle<Vec<Vec<u8>>>, stop: Arc<std::sync::atomic::AtomicBool>, dir: std::path::PathBuf, fd_marker: u64 },
         Udp { fd_marker: u64, _recv: std::net::UdpSocket },
     }
     let (client, obs): (StatsdClient, Obs) = match sink_kind {
@@ -81,8 +85,9 @@ fn run_case(rep: &mut Report, args: &Args, cs: u64, sink_kind: &str) {
                 }
             });
             let sock = std::os::unix::net::UnixDatagram::unbound().unwrap();
+            let marker = interpose::mark();
             let sink = if default_cap { BufferedUnixMetricSink::from(&path, sock) } else { BufferedUnixMetricSink::with_capacity(&path, sock, cap) };
-            (StatsdClient::from_sink("", sink), Obs::Unix { rx_thread, stop, dir })
+            (StatsdClient::from_sink("", sink), Obs::Unix { rx_thread, stop, dir, fd_marker: marker })
         }
         _ => {
             let recv = std::net::UdpSocket::bind("127.0.0.1:0").unwrap();
@@ -97,10 +102,14 @@ fn run_case(rep: &mut Report, args: &Args, cs: u64, sink_kind: &str) {
     // how "datagrams written so far" is read at the moment a flush returns
     let (flush_mark, rx_probe): (u8, Option<crossbeam_channel::Receiver<Vec<u8>>>) = match &obs {
         Obs::Spy(rx) => (1, Some(rx.clone())),
-        Obs::Udp { .. } => (2, None),
+        // (the sink calls sendto under its own lock: the interposer's log order is the wire order)
+        Obs::Udp { .. } | Obs::Unix { .. } => (2, None),
         _ => (0, None),
     };
-    let udp_base = if let Obs::Udp { fd_marker, .. } = &obs { *fd_marker } else { 0 };
+    let udp_base = match &obs {
+        Obs::Udp { fd_marker, .. } | Obs::Unix { fd_marker, .. } => *fd_marker,
+        _ => 0,
+    };
     let barrier = Arc::new(Barrier::new(threads));
     let mut joins = Vec::new();
     for t in 0..threads {
@@ -135,7 +144,7 @@ fn run_case(rep: &mut Report, args: &Args, cs: u64, sink_kind: &str) {
                         break;
                     }
                 }
-                if does_flush && r.chance(1, 50) {
+                if does_flush && r.chance(1, flush_one_in) {
                     if client.flush().is_ok() {
                         // everything this thread had acknowledged so far must be on the wire NOW: remember how many
                         // datagrams existed when flush returned (spy: channel length, nobody drains during the run;
@@ -172,6 +181,7 @@ fn run_case(rep: &mut Report, args: &Args, cs: u64, sink_kind: &str) {
     let flush_res = client.flush();
     drop(client);
     // ---- collect the datagram stream ----
+    let mut unix_mismatch: Option<String> = None;
     let stream: Vec<Vec<u8>> = match obs {
         Obs::Spy(rx) => rx.try_iter().collect(),
         Obs::QueueSpy(rx) => {
@@ -192,16 +202,22 @@ fn run_case(rep: &mut Report, args: &Args, cs: u64, sink_kind: &str) {
             }
             got
         }
-        Obs::Unix { rx_thread, stop, dir } => {
+        Obs::Unix { rx_thread, stop, dir, fd_marker } => {
             std::thread::sleep(std::time::Duration::from_millis(30));
             stop.store(true, std::sync::atomic::Ordering::SeqCst);
             let got = rx_thread.join().unwrap_or_default();
             let _ = std::fs::remove_dir_all(dir);
+            // what the receiver got is what the sink's successful sendto calls carried, in that order
+            let sent: Vec<Vec<u8>> = interpose::since(fd_marker).into_iter().filter(|r| r.result >= 0).map(|r| r.payload).collect();
+            rep.obs("unix_datagrams_cross_checked_with_the_syscall_log", sent.len() as u64);
+            if sent != got {
+                unix_mismatch = Some(format!("the Unix receiver got {} datagrams, the sink's successful sendto calls were {}", got.len(), sent.len()));
+            }
             got
         }
         Obs::Udp { fd_marker, .. } => interpose::since(fd_marker).into_iter().filter(|r| r.result >= 0).map(|r| r.payload).collect(),
     };
-    let cfg = jobj! {"sink" => sink_kind, "threads" => threads, "capacity" => cap, "default_capacity" => default_cap, "emits_per_thread" => per_thread, "flushing_threads" => flushers};
+    let cfg = jobj! {"sink" => sink_kind, "threads" => threads, "capacity" => cap, "default_capacity" => default_cap, "emits_per_thread" => per_thread, "flushing_threads" => flushers, "flush_one_in" => flush_one_in};
     let mut fail = |rep: &mut Report, rule: &str, class: &str, detail: String, extra: Json| {
         rep.violation(Violation {
             property: "C12".into(),
@@ -212,6 +228,10 @@ fn run_case(rep: &mut Report, args: &Args, cs: u64, sink_kind: &str) {
             trace: jobj! {"config" => cfg.clone(), "evidence" => extra},
         });
     };
+    if let Some(m) = unix_mismatch {
+        fail(rep, "F2", "receiver-differs-from-syscall-log", m, Json::Null);
+        return;
+    }
     if let Some(p) = panic_msg {
         fail(rep, "no-panic", "emit-panicked", format!("an emitting thread panicked: {}", p), Json::Null);
         return;
